@@ -110,7 +110,7 @@ Section Acct.
   Proof.
     intros cap s o Hs Ho. destruct o; simpl.
     - (* OLocal *)
-      destruct k; try apply bal_refl.
+      destruct (excluded k); [apply bal_refl|].
       destruct (negb stream); [apply bal_lose|].
       destruct rcv; [apply bal_to_dl; reflexivity | apply bal_lose].
     - apply bal_to_dl; reflexivity.
@@ -196,7 +196,7 @@ Section Acct.
   Lemma step_wf : forall cap s o, st_wf s -> op_wf o -> st_wf (step cap s o).
   Proof.
     intros cap s o Hs Ho. destruct o; simpl.
-    - destruct k; auto. destruct (negb stream); [exact Hs|].
+    - destruct (excluded k); auto. destruct (negb stream); [exact Hs|].
       destruct rcv; [|exact Hs]. destruct (to_dl_cur_fq e (mid, sender_of snd, a) (mid, sender_of snd, rcv_or (Some a)) s).
       eapply wf_of_eq; eauto.
     - destruct (to_dl_cur_fq e (mid, from, to) (mid, from, to) s). eapply wf_of_eq; eauto.
@@ -311,7 +311,7 @@ Lemma step_core : forall cap s o,
   match o with ODLStep | OPublishAll => True | _ => core (step cap s o) = core s end.
 Proof.
   intros cap s o. destruct o; simpl; auto.
-  - destruct k; auto. destruct (negb stream); [reflexivity|]. destruct rcv; [apply core_to_dl | reflexivity].
+  - destruct (excluded k); auto. destruct (negb stream); [reflexivity|]. destruct rcv; [apply core_to_dl | reflexivity].
   - apply core_to_dl.
   - destruct accepted; [reflexivity | apply core_to_dl].
   - destruct accepted; [apply core_to_dl|]. destruct (e_dl e); reflexivity.
@@ -441,7 +441,7 @@ Definition sender_ok (w : waddr) : bool := Nat.eqb (sender_remote w) (meant w).
 Definition op_ok (cap : nat) (s : st) (o : op) : bool :=
   match o with
   | OLocal e stream snd rcv k mid =>
-      match k with KUser => stream && is_some rcv && e_dl e | _ => true end
+      excluded k || (stream && is_some rcv && e_dl e)
   | OToDL e _ _ _ => e_dl e
   | OAskSend e acc _ _ _ => acc || e_dl e
   | OAskTimeout e acc _ _ _ => acc && e_dl e      (* an Ask whose enqueue failed is dead-lettered twice *)
@@ -488,7 +488,7 @@ Proof.
   intros cap s o H [L D]. unfold clean.
   destruct o; simpl in *;
     unfold to_dl, remote_dl, drain_msg, lose, send_dl, set_dups, set_fq, set_cur, set_lost, set_mbox, delivered in *.
-  - destruct k; auto. apply andb_true_iff in H. destruct H as [H H3]. apply andb_true_iff in H. destruct H as [H1 H2].
+  - destruct (excluded k); auto. simpl in H. apply andb_true_iff in H. destruct H as [H H3]. apply andb_true_iff in H. destruct H as [H1 H2].
     rewrite H1, H3. simpl. destruct rcv; simpl in *; [auto|discriminate].
   - rewrite H. auto.
   - destruct accepted; simpl in *; auto. rewrite H. auto.
@@ -637,6 +637,43 @@ Proof.
     destruct (dl_all_mbox cap (length (mbox s1)) s1 eq_refl) as (M & C2 & F2).
     unfold quiescent, dl_all_ops. rewrite M, C2, F2, C, F. auto.
 Qed.
+
+(* ------------------------------------------------------------------ single-step facts: which messages, which target states *)
+
+(** every message kind other than PostStart / Terminated / SendDeadletter that reaches the drop site of a
+    running, addressable actor is handed to the dead-letter actor — in particular the reentrancy envelopes *)
+Lemma local_drop_sends : forall cap s e snd r k mid,
+  excluded k = false -> e_dl e = true ->
+  step cap s (OLocal e true snd (Some r) k mid) = send_dl (mid, sender_of snd, r) s
+  /\ spec_op (OLocal e true snd (Some r) k mid) = [(mid, sender_of snd, r)].
+Proof. intros cap s e snd r k mid Hk He. simpl. rewrite Hk. simpl. unfold to_dl. rewrite He. auto. Qed.
+
+Lemma local_excluded_silent : forall cap s e stream snd rcv k mid,
+  excluded k = true ->
+  step cap s (OLocal e stream snd rcv k mid) = s /\ spec_op (OLocal e stream snd rcv k mid) = [].
+Proof. intros. simpl. rewrite H. auto. Qed.
+
+(** a remote tell that finds its target in the tree but not running (any of: running bit clear, stopping,
+    suspended, passivating) is dead-lettered and never enqueued; a running target gets it *)
+Lemma remote_target_state : forall cap s e w p r,
+  w_payload w = true -> w_meta w = true -> parse (w_to w) = Some r -> e_dl e = true -> e_guard e = true ->
+  (is_running p = false ->
+     step cap s (ORemote e w (tree_of_state p true)) = send_dl (w_mid w, sender_remote (w_from w), r) s
+     /\ spec_op (ORemote e w (tree_of_state p true)) = [intended w])
+  /\ (is_running p = true ->
+     step cap s (ORemote e w (tree_of_state p true)) = s /\ spec_op (ORemote e w (tree_of_state p true)) = []).
+Proof.
+  intros cap s e w p r Hp Hm Hr Hd Hg. unfold tree_of_state. split; intros Hrun; rewrite Hrun; simpl;
+    unfold delivered; rewrite Hp, Hm; simpl.
+  - rewrite Hr. unfold remote_dl. rewrite Hd, Hg. auto.
+  - auto.
+Qed.
+
+Example is_running_table :
+  map is_running [PS true false false false; PS true true false false; PS true false true false;
+                  PS true false false true; PS false false false false; PS true true true true]
+  = [true; false; false; false; false; false].
+Proof. reflexivity. Qed.
 
 (* ------------------------------------------------------------------ what the guard excludes: witnesses *)
 
